@@ -584,6 +584,7 @@ Section LB.
     end.
 
   Definition transpose_words (n : nat) : M bool :=
+    do b0 <- get;
     do _ <- move_to_next_word AtAfterEnd WEmacs n;
     do b1 <- get; let w2_end := pos b1 in
     do _ <- move_to_prev_word WEmacs 1;
@@ -592,7 +593,7 @@ Section LB.
     do b3 <- get; let w1_beg := pos b3 in
     do _ <- move_to_next_word AtAfterEnd WEmacs 1;
     do b4 <- get; let w1_end := pos b4 in
-    if Nat.eqb w1_beg w2_beg || Nat.ltb w2_beg w1_end then ret false
+    if Nat.eqb w1_beg w2_beg || Nat.ltb w2_beg w1_end then put_pos (pos b0) ;; ret false
     else
       do w1 <- lift (slice (buf b4) w1_beg w1_end);
       do w2 <- drain w2_beg w2_end DForward;
